@@ -194,18 +194,25 @@ def worker_main(args):
         if hasattr(mod, "extra_cases"):
             for case in mod.extra_cases(args.tier, args.shard, args.nshards, ctx):
                 handle(case)
-        n = budget["examples"]
-        per = max(1, (n + args.nshards - 1) // args.nshards)
-        if n > 0:
+        # Hypothesis runs: the module's main strategy and, when it has one, its strategy of
+        # oracle-guided inputs with a budget of its own (inside one_of, Hypothesis' example mutation
+        # favours branches with long choice sequences, which starves integer-seeded searches)
+        runs = [(mod.strategy(args.tier), budget["examples"], 0)]
+        if hasattr(mod, "hard_strategy") and budget.get("hard_examples", 0) > 0:
+            runs.append((mod.hard_strategy(args.tier), budget["hard_examples"], 500))
+        for strat, n, off in runs:
+            per = max(1, (n + args.nshards - 1) // args.nshards)
+            if n <= 0:
+                continue
             from hypothesis import HealthCheck, Phase, given, settings
             from hypothesis import seed as hseed
 
-            @hseed(args.seed * 1000 + args.shard)
+            @hseed(args.seed * 1000 + args.shard + off)
             @settings(max_examples=per, phases=[Phase.generate], database=None, deadline=None,
                       derandomize=False, report_multiple_bugs=False,
                       suppress_health_check=[HealthCheck.too_slow, HealthCheck.data_too_large,
                                              HealthCheck.large_base_example])
-            @given(mod.strategy(args.tier))
+            @given(strat)
             def t(case):
                 handle(case)
 
